@@ -18,6 +18,7 @@ type structInfo struct {
 	mutexes  []string
 	primary  string // first declared mutex field ("" = none)
 	foreign  []string
+	elemPtr  map[string]bool // fields declared as map[..]*T / []*T: containers of pointers to shared records
 }
 
 func (si *structInfo) fid(f string) int { return si.fieldIdx[f] }
@@ -93,6 +94,7 @@ type method struct {
 	calls                    []callEdge
 	goros                    []goroutineInfo
 	escapes                  []string
+	elemEscapes              []string
 	literal                  []litField
 	closure                  []access
 }
@@ -129,7 +131,7 @@ func findStruct(p *pkgSrc, name string) *structInfo {
 				if !ok || ts.Name.Name != name {
 					continue
 				}
-				si := &structInfo{name: name, fieldIdx: map[string]int{}}
+				si := &structInfo{name: name, fieldIdx: map[string]int{}, elemPtr: map[string]bool{}}
 				for _, f := range st.Fields.List {
 					var names []string
 					if len(f.Names) == 0 { // embedded: name is the last identifier of the type
@@ -152,6 +154,16 @@ func findStruct(p *pkgSrc, name string) *structInfo {
 						si.fieldIdx[n] = len(si.fields)
 						if isMutexType(f.Type) {
 							si.mutexes = append(si.mutexes, n)
+						}
+						switch ft := f.Type.(type) {
+						case *ast.MapType:
+							if _, ok := ft.Value.(*ast.StarExpr); ok {
+								si.elemPtr[n] = true
+							}
+						case *ast.ArrayType:
+							if _, ok := ft.Elt.(*ast.StarExpr); ok {
+								si.elemPtr[n] = true
+							}
 						}
 					}
 				}
@@ -187,7 +199,7 @@ func collectType(p *pkgSrc, name string) *typeFacts {
 	tf := &typeFacts{leanName: strings.ToLower(name[:1]) + name[1:], byName: map[string]*method{}}
 	tf.si = findStruct(p, name)
 	if tf.si == nil {
-		tf.si = &structInfo{name: name, fieldIdx: map[string]int{}}
+		tf.si = &structInfo{name: name, fieldIdx: map[string]int{}, elemPtr: map[string]bool{}}
 	}
 	for _, fn := range p.names {
 		for _, d := range p.files[fn].Decls {
@@ -209,6 +221,7 @@ func collectType(p *pkgSrc, name string) *typeFacts {
 		w := &walker{p: p, tf: tf, m: m, recv: m.recvName, alias: map[string]string{}, atomicAlias: map[string]string{}}
 		w.prescan(m.decl.Body)
 		w.walkBlock(m.decl.Body.List, wctx{mode: "none", before: true}, true)
+		m.elemEscapes = elemEscapes(tf, m)
 	}
 	closeAccesses(tf)
 	return tf
@@ -998,6 +1011,123 @@ func (w *walker) walkCall(x *ast.CallExpr, c wctx) {
 	}
 }
 
+// elemEscapes: the method hands out (returns, stores into a non-receiver container, passes to a call) a POINTER
+// element of one of the receiver's containers of pointers (map[..]*T / []*T) as it is - the record stays shared
+// with the receiver after the method, and its lock, are left behind. Result: the field names concerned.
+func elemEscapes(tf *typeFacts, m *method) []string {
+	recv := m.recvName
+	ptrField := func(e ast.Expr) (string, bool) {
+		se, ok := e.(*ast.SelectorExpr)
+		if !ok {
+			return "", false
+		}
+		id, ok := se.X.(*ast.Ident)
+		if !ok || id.Name != recv || !tf.si.elemPtr[se.Sel.Name] {
+			return "", false
+		}
+		return se.Sel.Name, true
+	}
+	vars := map[string]string{}
+	ast.Inspect(m.decl.Body, func(n ast.Node) bool {
+		switch x := n.(type) {
+		case *ast.RangeStmt:
+			if f, ok := ptrField(x.X); ok {
+				if id, ok := x.Value.(*ast.Ident); ok && id.Name != "_" {
+					vars[id.Name] = f
+				}
+			}
+		case *ast.AssignStmt:
+			if x.Tok == token.DEFINE && len(x.Rhs) == 1 && len(x.Lhs) >= 1 {
+				if ix, ok := x.Rhs[0].(*ast.IndexExpr); ok {
+					if f, ok := ptrField(ix.X); ok {
+						if id, ok := x.Lhs[0].(*ast.Ident); ok && id.Name != "_" {
+							vars[id.Name] = f
+						}
+					}
+				}
+			}
+		}
+		return true
+	})
+	if len(vars) == 0 {
+		return nil
+	}
+	bare := func(e ast.Expr) (string, bool) {
+		id, ok := e.(*ast.Ident)
+		if !ok {
+			return "", false
+		}
+		f, ok := vars[id.Name]
+		return f, ok
+	}
+	var rootedAtRecv func(e ast.Expr) bool
+	rootedAtRecv = func(e ast.Expr) bool {
+		switch x := e.(type) {
+		case *ast.Ident:
+			return x.Name == recv
+		case *ast.SelectorExpr:
+			return rootedAtRecv(x.X)
+		case *ast.IndexExpr:
+			return rootedAtRecv(x.X)
+		case *ast.StarExpr:
+			return rootedAtRecv(x.X)
+		case *ast.ParenExpr:
+			return rootedAtRecv(x.X)
+		}
+		return false
+	}
+	seen := map[string]bool{}
+	var out []string
+	hit := func(f string) {
+		if !seen[f] {
+			seen[f] = true
+			out = append(out, f)
+		}
+	}
+	ast.Inspect(m.decl.Body, func(n ast.Node) bool {
+		switch x := n.(type) {
+		case *ast.AssignStmt:
+			if len(x.Lhs) == len(x.Rhs) {
+				for i, r := range x.Rhs {
+					if f, ok := bare(r); ok && !rootedAtRecv(x.Lhs[i]) {
+						if id, isID := x.Lhs[i].(*ast.Ident); isID && id.Name == "_" {
+							continue
+						}
+						hit(f)
+					}
+				}
+			}
+		case *ast.CallExpr:
+			if id, ok := x.Fun.(*ast.Ident); ok && (id.Name == "len" || id.Name == "delete") {
+				return true
+			}
+			for _, a := range x.Args {
+				if f, ok := bare(a); ok {
+					hit(f)
+				}
+			}
+		case *ast.ReturnStmt:
+			for _, r := range x.Results {
+				if f, ok := bare(r); ok {
+					hit(f)
+				}
+			}
+		case *ast.CompositeLit:
+			for _, e := range x.Elts {
+				v := e
+				if kv, ok := e.(*ast.KeyValueExpr); ok {
+					v = kv.Value
+				}
+				if f, ok := bare(v); ok {
+					hit(f)
+				}
+			}
+		}
+		return true
+	})
+	return out
+}
+
 // ---- closure over same-receiver calls --------------------------------------------------------------------
 
 func closeAccesses(tf *typeFacts) {
@@ -1200,6 +1330,8 @@ structure Method where
   calls : List Call
   goroutines : List Goroutine
   escapes : List String  -- places where the receiver itself is handed to other code
+  elemEscapes : List String  -- receiver fields of type map[..]*T / []*T an element POINTER of which the method hands
+                         -- out as it is (returned, stored outside the receiver, passed on): the record stays shared
   literal : List LitField
   deriving DecidableEq, Repr
 
@@ -1234,10 +1366,10 @@ func leanMethod(m *method) string {
 	for _, l := range m.literal {
 		lits = append(lits, fmt.Sprintf("{ field := %s, expr := %s, src := .%s }", leanStr(l.field), leanStr(l.expr), l.src))
 	}
-	return fmt.Sprintf("{ recv := %s, name := %s, exported := %s, file := %s, line := %d,\n      lock := .%s, mutex := %s, deferred := %s, preStmts := %d, regionStmts := %d, postStmts := %d, sections := %d, reentrant := %s,\n      accesses := %s,\n      calls := %s,\n      goroutines := %s,\n      escapes := %s,\n      literal := %s }",
+	return fmt.Sprintf("{ recv := %s, name := %s, exported := %s, file := %s, line := %d,\n      lock := .%s, mutex := %s, deferred := %s, preStmts := %d, regionStmts := %d, postStmts := %d, sections := %d, reentrant := %s,\n      accesses := %s,\n      calls := %s,\n      goroutines := %s,\n      escapes := %s,\n      elemEscapes := %s,\n      literal := %s }",
 		leanStr(m.recvType), leanStr(m.name), leanBool(m.exported), leanStr(m.file), m.line,
 		m.lock, leanStr(m.mutex), leanBool(m.deferred), m.pre, m.region, m.post, m.sections, leanBool(m.reentrant),
-		leanList(accs, "      "), leanList(calls, "      "), leanList(goros, "      "), leanStrList(m.escapes), leanList(lits, "      "))
+		leanList(accs, "      "), leanList(calls, "      "), leanList(goros, "      "), leanStrList(m.escapes), leanStrList(m.elemEscapes), leanList(lits, "      "))
 }
 
 func genLockFacts(util, logp, scp *pkgSrc) string {
